@@ -19,6 +19,12 @@ TRUSTED = [
     "__init__ creates, whether the Charge.array property stores the derived array, empty() overrides of the Detector "
     "subclasses; policy of Detector.set_readout and the wiring of its call in run_pipeline; fails closed on any other "
     "shape)",
+    "translator/c02_norm.py: the behaviour-preserving normalisation applied to every function before the recognisers "
+    "read it (inlining of helpers of the same module / class, substitution of single-assignment locals under stated "
+    "no-interference conditions, guard clauses == elif chains, module-level literal constants, loops over constant "
+    "tuples, constant folding, match / chained comparison / conditional expression); its side conditions treat "
+    "attribute reads and numpy / builtin calls as free of side effects and `set_*` methods as the only calls that rebind "
+    "attributes of their receiver; tested differentially on every run (normaliser_selftest in the evidence)",
     "correspondence harness: harness/props/c02.py generators, harness/drivers/c02.py, probes/verif_probes_c02.py "
     "(the observing probes read private _array / _frame attributes of the containers)",
     "modelled, not verified: float64 arithmetic on the generated dyadic times is exact (checked per case in the "
@@ -1310,6 +1316,19 @@ def run(ctx: Ctx):
         ctx.broken.append(Broken("translation", "readout guards / Detector.empty table", str(ex)))
         ctx.log("translation failed:", ex)
         gen["Gen_C02.v"] = tr.FALLBACK
+    # the translator reads the NORMAL FORM of every function (translator/c02_norm.py); which behaviour-preserving rewrites
+    # were applied on this tree is evidence, and the normaliser itself is tested differentially (original vs normal form
+    # of sample functions executed on the same inputs) on every run
+    ctx.cov["normalisations_applied"] = list(tr.NORM_LOG)
+    try:
+        from translator import c02_norm
+        st = c02_norm.selftest()
+        ctx.cov["normaliser_selftest"] = dict(functions=st["functions"], runs=st["runs"], failures=len(st["failures"]))
+        if st["failures"]:
+            ctx.broken.append(Broken("translation", "normaliser self-test (original vs normal form differ)",
+                                     "; ".join(st["failures"])[:800]))
+    except Exception as ex:      # noqa: BLE001
+        ctx.broken.append(Broken("translation", "normaliser self-test crashed", repr(ex)))
     proved = core.proof_leg(ctx, gen, PROP_FILE)
     if proved and not ctx.quick:
         ok, out = core.coqchk(ctx, "PyxelGen.C02_prop")
@@ -1452,7 +1471,8 @@ META = dict(
         "the object-level model started from the observed detector state, and judged against the specification, inside "
         "Coq."),
     level_note=(
-        "Trusted: Coq kernel + vm_compute; translator/c02.py; the correspondence harness and probes; exactness of float "
+        "Trusted: Coq kernel + vm_compute; translator/c02.py and the normaliser translator/c02_norm.py it reads the "
+        "source through (differentially self-tested on every run); the correspondence harness and probes; exactness of float "
         "arithmetic on the generated dyadic times (checked per case); numpy expression / file readers return what the "
         "harness computes with the same numpy. Not carried: rounding of np.diff for non-dyadic times; infinite times; "
         "models that themselves tamper with the clock or call detector.empty(); 'non-zero times' is read as 'first time "
